@@ -563,7 +563,9 @@ class ExcelCompiler:
             if isinstance(cell, _CellRange) or cell.formula:
                 cell.value = None
 
-        for cell in self.cell_map.values():
+        # evaluating may bring further cells into the model (the result of
+        # a range intersection, the target of an INDIRECT)
+        for cell in tuple(self.cell_map.values()):
             self.evaluate(cell.address.address)
 
     def trim_graph(self, input_addrs, output_addrs):
